@@ -404,6 +404,14 @@ func mutateOnce(r *core.Rand, t *tree.Tree, o editOpt) string {
 		if e == nil {
 			return ""
 		}
+		if e.Target != "" && r.P(1, 2) {
+			// another spelling of the same path (the time stamp stays): to
+			// the kernel, and to readlink, it is another target
+			e.Target = core.Pick(r, []string{"./" + e.Target, e.Target + "/", e.Target + "/.", "zz/../" + e.Target, strings.Replace(e.Target, "/", "//", 1)})
+			if len(e.Target) < 200 {
+				return "respell-target " + e.Path
+			}
+		}
 		e.Target = e.Target + "x"
 		return "retarget " + e.Path
 	case "xattr":
